@@ -17,7 +17,9 @@ fields: 0 Emp.works_for (WorksFor ⊂ MemberOf), 1 Emp.member_of (MemberOf, inve
 inverse MemberOf), 3 Org.sub_of (SubOf, transitive), 4 Thing.knows, 5 Thing.likes (plain dataclass fields),
 6 Chair.head_of (HeadOf ⊂ WorksFor: inverse Member on the Org; its super-properties live on the role taker),
 7 Chair.manages (Manages ⊂ Employer, no inverse), 8 Emp.employer (Employer), 9 a strong reference that is no relation
-(Chair.emp, Holder.item, the harness's `attach`). Role structure (all of it in the proven model, `Model/SymbolGraph.lean`):
+(Chair.emp, Holder.item, the harness's `attach`), 10 Org.children (ParentOf, a LIST, inverse ChildOf), 11 Org.parent (ChildOf, a
+SCALAR, inverse ParentOf): `p.children.append(c)` infers `c.parent = p` and OVERWRITES the parent `c` had — a container
+field whose inference writes a scalar field. Role structure (all of it in the proven model, `Model/SymbolGraph.lean`):
 `Chair.emp` (field 9) is the role-taker field of class 8; the fields of the role-taker type Emp managed by
 super-properties of HeadOf are works_for, member_of (in that order), of Manages: employer; `Member`'s inverse `MemberOf`
 has no field on a Chair, so the inverse of `members(org → chair)` is looked up on the chair's role taker: member_of. -/
@@ -26,10 +28,12 @@ def schema : Schema where
     | 0 => [1, 2, 4, 8, 9] | 2 => [3] | 4 => [5, 6] | 5 => [7] | 6 => [7] | 10 => [11] | _ => []
   depth := 4
   kind := fun f => match f with
-    | 0 => .scalar | 1 => .list | 2 => .set | 3 => .list | 6 => .scalar | 7 => .scalar | 8 => .scalar | _ => .plain
+    | 0 => .scalar | 1 => .list | 2 => .set | 3 => .list | 6 => .scalar | 7 => .scalar | 8 => .scalar
+    | 10 => .list | 11 => .scalar | _ => .plain
   supers := fun f _ => match f with | 0 => [1] | _ => []
   inverse := fun f c => match f with
-    | 0 => some 2 | 1 => some 2 | 2 => if c == 8 then none else some 1 | 6 => some 2 | _ => none
+    | 0 => some 2 | 1 => some 2 | 2 => if c == 8 then none else some 1 | 6 => some 2
+    | 10 => some 11 | 11 => some 10 | _ => none
   transitive := fun f => f == 3
   desc := fun f => f
   fuel := 64
